@@ -272,6 +272,18 @@ class Gen:
                 fl = self.lower(list(FUN), owner)
                 out.append(r.choice(fl) if fl else "x")     # bare function-like name as an argument
                 out.append(r.choice(PLAIN))                 # ... never directly before a macro name (F65)
+        # an argument whose tokens all expand to nothing counts as a MISSING argument in OCCA (finding F68):
+        # every generated argument keeps at least one token that is not a macro at its top level
+        depth_, plain = 0, False
+        for t in out:
+            if t == "(":
+                depth_ += 1
+            elif t == ")":
+                depth_ -= 1
+            elif depth_ == 0 and (t in PLAIN or t in ("1", "2", "+", "*") or (params and t in params)):
+                plain = True
+        if not plain:
+            out.append(r.choice(PLAIN))
         return out
 
     def invocation(self, params, depth, owner=None):
@@ -528,6 +540,7 @@ KNOWN_REPLAYS = [
     ["D X : 1", "IF defined X", "T yes", "ENDIF", "end"],                            # F64 `defined X` without parentheses
     ["F f x : [ x ]", "D E :", "T f E ( 1 )", "end"],                                # F65 the token after a function-like name is expanded first
     ["D P : 1 , 2", "F f x : [ x ]", "T f ( P )", "end"],                            # F67 arguments are split AFTER they were expanded
+    ["D E :", "F f x : [ x ]", "T f ( E )", "end"],                                  # F68 an argument that expands to nothing is "missing"
     ["IF 1 ? 0 : 1 ? 1 : 1", "T a", "ENDIF", "T c", "end"],                           # N5 (C15's) nested ?: is left-nested
     ["IF 0 + ! 1", "T a", "ENDIF", "IF 1 - - 1 == 2", "T b", "ENDIF", "end"],        # N3 (C15's) binary op before a unary op
     ["IF ~ ( 1 < 2 )", "T a", "ENDIF", "T c", "end"],                                # C14's: ~bool is !bool
@@ -570,7 +583,7 @@ def main(argv):
         hs = [read_replay(ck.replay)]
         known = []
     else:
-        n = int(os.environ.get("VERIF_C13_UNITS", "0")) or (700 if ck.tier == "quick" else 30000)
+        n = int(os.environ.get("VERIF_C13_UNITS", "0")) or (500 if ck.tier == "quick" else 12000)
         hs = list(CORPUS)
         rejected = 0
         rounds = 0
